@@ -182,6 +182,16 @@ fn expand(scn: Vec<Scenario>, atoms: &Atoms) -> Vec<Scenario> {
                 t.sessions[0].files[0].feed = Feed::Cut(cut);
                 out.push(t);
             }
+        } else if s.family == "F2" && s.sessions[0].files.iter().any(|f| f.feed == Feed::Cut(usize::MAX - 1)) {
+            // "cut in the middle of the word": resolved here, where the atom sizes are known
+            let mut t = s.clone();
+            for f in t.sessions[0].files.iter_mut() {
+                if f.feed == Feed::Cut(usize::MAX - 1) {
+                    let half = FileSpec::new(&f.word[..f.word.len() / 2], 0, Feed::Whole).bytes(atoms).len();
+                    f.feed = Feed::Cut(half);
+                }
+            }
+            out.push(t);
         } else {
             out.push(s);
         }
